@@ -103,6 +103,7 @@ type Env struct {
 	name    string
 
 	caseCache storage.InMemoryCache[any]
+	lastSetup string // model and tuples of the last Setup as JSON (reported by the memory guard)
 }
 
 func NewEnv(ds storage.OpenFGADatastore, opts ...server.OpenFGAServiceV1Option) *Env {
@@ -138,6 +139,7 @@ var storeSeq int
 // as if left over from another model).
 func (e *Env) Setup(ctx context.Context, m *Model, tuples []Tuple) error {
 	storeSeq++
+	e.lastSetup = "model=" + jsonOf(m) + " tuples=" + jsonOf(normTuples(tuples))
 	if e.caseCache != nil {
 		e.caseCache.Stop()
 		e.caseCache = nil
